@@ -5,8 +5,8 @@
    `run all_off ops (empty_config name)` is the configuration after an ARBITRARY list of operations
    (update, update_from_dict, update_from_options, update_from_file, profiles = ..., master_section = ...,
    fallback_config = ..., update_vars) applied to Configuration(name), in the specification model. *)
-From Coq Require Import ZArith List Bool String Ascii.
-From Verif Require Import Gen.C19_BoolStates Model.C19_Config Proofs.C19_Config.
+From Coq Require Import ZArith List Bool String Ascii Lia.
+From Verif Require Import Gen.C19_BoolStates Model.C19_Config Proofs.C19_Config Proofs.C19_Text.
 Import ListNotations.
 Open Scope string_scope.
 
@@ -95,6 +95,12 @@ Proof.
 Qed.
 Print Assumptions list_tuple_dict_consistent.
 
+(* int and float read the same text: whenever `int` succeeds, `float` succeeds with exactly that integer value
+   (blanks, sign, underscores between digits included) *)
+Theorem int_float_consistent : forall (v : string) (z : Z), val_int v = Ok z -> val_float v = Ok (FDec z 0%Z).
+Proof. exact int_float_agree. Qed.
+Print Assumptions int_float_consistent.
+
 (* booleans: exactly the eight spellings, in any letter case (on the table regenerated from the source) *)
 Theorem bool_eight_spellings : forall v,
   (forall b, val_bool v = Ok b <->
@@ -121,7 +127,7 @@ Theorem text_roundtrip_partial :
   (forall (cs : bool) (st : rstate) (k v sn : string) opts,
      key_ok k -> value_ok v -> r_sect st = Some sn -> sget sn (r_done st) = Some opts ->
      let k' := if cs then k else lower k in
-     smem k' opts = false -> r_indent st = 0 ->
+     smem k' opts = false ->
      read_line cs (Ok st) (plain_line k v) =
      Ok (RState (sset (r_done st) sn (opts ++ [(k', Some [v])])%list) (Some sn) (Some k') 0)) /\
   (forall v, value_ok v -> joined_value [v] = v) /\
@@ -129,12 +135,33 @@ Theorem text_roundtrip_partial :
      sn <> EmptyString -> has_char "]"%char sn = false ->
      is_space (match sn with String a _ => a | _ => sp end) = false ->
      smem sn (r_done st) = false ->
-     match r_opt st with Some _ => r_indent st = 0 | None => True end ->
      exists ind, read_line cs (Ok st) ("[" ++ sn ++ "]") = Ok (RState (r_done st ++ [(sn, [])])%list (Some sn) None ind)).
 Proof.
   split; [exact read_entry_line|]. split; [exact joined_single|exact read_header_line].
 Qed.
 Print Assumptions text_roundtrip_partial.
+
+(* textwrap.fill (break_long_words=False, break_on_hyphens=False) leaves a line that fits unchanged: any text that
+   does not end in a blank and is not longer than the width *)
+Theorem fill_fits_unchanged : forall w h text,
+  ends_nonblank text = true -> String.length text <= w -> fill w h text = text.
+Proof. exact fill_fits. Qed.
+Print Assumptions fill_fits_unchanged.
+
+(* WHOLE FILE: write_to_file(width w) followed by update_from_file(case_sensitive = cs) of the written file gives the same
+   sections, keys, values and (empty) metadata in the same order, for every configuration whose flattened view is in
+   the sub-grammar `view_ok cs w`:
+     - section names: non-empty, no "]", no line break, no "__", not starting with a blank; pairwise different;
+     - sections non-empty, keys pairwise different; a key is non-empty, has no "=", ":" or line break, no trailing
+       whitespace, does not start with "[", "#", ";" or whitespace, and is lower case unless case-sensitive;
+     - values: non-empty, no leading/trailing whitespace, no line break (may contain "=", "{var}", blanks, anything else);
+     - no metadata, and every line `key<pad 30> = value` fits the width (no wrapping).
+   What stays out (see text_roundtrip_partial): metadata lines, wrapped lines, empty values. *)
+Theorem text_roundtrip : forall (cs : bool) (w : nat) (c : config),
+  view_ok cs w (c_view c) ->
+  answer all_off c (QReadBack w cs) = AContent (Ok (view_content (c_view c))).
+Proof. exact readback_ok. Qed.
+Print Assumptions text_roundtrip.
 
 (* ---- the four deviations of the current source are real: computed witnesses *)
 
@@ -220,6 +247,17 @@ Example roundtrip_example :
                         OProfiles (Some [Some "p1"])] (empty_config "c") in
   answer all_off c (QReadBack 200 false) = AContent (Ok (view_content (c_view c))).
 Proof. vm_compute. reflexivity. Qed.
+
+Example view_ok_example :
+  view_ok false 200 (c_view (run all_off [OUpdate (Upd "sa" "k1" "a, b  c = d" None "s" []) true;
+                                          OUpdate (Upd "sb" "file_name" "/data/{yyyy}/x-y.txt" (Some "p1") "s" []) true;
+                                          OUpdate (Upd "sa" "k2" "42" None "s" []) true;
+                                          OProfiles (Some [Some "p1"])] (empty_config "c"))).
+Proof.
+  vm_compute c_view. split.
+  - repeat constructor; simpl; intuition discriminate.
+  - repeat constructor; simpl; try (intuition discriminate); try discriminate; try reflexivity; try lia.
+Qed.
 
 Example replace_example :
   py_replace all_off [("yyyy", "2021"); ("root", "/mnt/{yyyy}")] None "{root}/{doy}/{yyyy:>6}" = Ok "/mnt/2021/{doy}/  2021".
